@@ -221,7 +221,7 @@ def _cmodsq(cfg, rng):
 def _matrix(cfg, rng):
     o = odl()
     mode = opt(cfg, rng, 'mode', ['dense', 'dense', 'sparse', 'axis',
-                                  'complex', 'f32'])
+                                  'complex', 'f32', 'axis_sparse'])
     g = data(cfg)
     m = opt(cfg, rng, 'm', [1, 2, 3, 5])
     n = opt(cfg, rng, 'n', [1, 2, 4, 6])
@@ -238,7 +238,11 @@ def _matrix(cfg, rng):
         return o.MatrixOperator(scipy.sparse.coo_matrix(A))
     axis = opt(cfg, rng, 'axis', [0, 1])
     dom = o.tensor_space((n, 3) if axis == 0 else (2, n))
-    return o.MatrixOperator(g.standard_normal((m, n)), domain=dom, axis=axis)
+    A = g.standard_normal((m, n))
+    if mode == 'axis_sparse':
+        import scipy.sparse
+        A = scipy.sparse.csr_matrix(A * (g.uniform(0, 1, (m, n)) < 0.6))
+    return o.MatrixOperator(A, domain=dom, axis=axis)
 
 
 @recipe('Flattening', fam='tensor')
@@ -880,9 +884,13 @@ def _prox_factory(cfg, rng):
                 'proximal_linfty', 'proximal_convex_conj_linfty'):
         fac = getattr(PO, name)(S)
     elif name == 'proximal_box_constraint':
-        fac = PO.proximal_box_constraint(
-            S, lower=opt(cfg, rng, 'lo', [None, -1, 0]),
-            upper=opt(cfg, rng, 'hi', [None, 1, 2]))
+        lo = opt(cfg, rng, 'lo', [None, -1, 0, 'elem'])
+        hi = opt(cfg, rng, 'hi', [None, 1, 2, 'elem'])
+        if lo == 'elem':
+            lo = -SP.rand_elem(S, data(cfg, 'lo'), positive=True)
+        if hi == 'elem':
+            hi = SP.rand_elem(S, data(cfg, 'hi'), positive=True)
+        fac = PO.proximal_box_constraint(S, lower=lo, upper=hi)
     elif name == 'proximal_huber':
         fac = PO.proximal_huber(S, gamma=opt(cfg, rng, 'gamma', [0.1, 1.0]))
     elif name in ('proximal_convex_conj_kl',
@@ -894,9 +902,13 @@ def _prox_factory(cfg, rng):
     elif name in ('proximal_translation', 'proximal_arg_scaling',
                   'proximal_quadratic_perturbation', 'proximal_composition',
                   'proximal_convex_conj', 'combine_proximals'):
-        inner = getattr(PO, opt(cfg, rng, 'inner', [
+        iname = opt(cfg, rng, 'inner', [
             'proximal_l1', 'proximal_l2', 'proximal_l2_squared',
-            'proximal_convex_conj_l1']))(S)
+            'proximal_convex_conj_l1', 'moreau_of_l2', 'proximal_linfty'])
+        if iname == 'moreau_of_l2':
+            inner = PO.proximal_convex_conj(PO.proximal_l2(S))
+        else:
+            inner = getattr(PO, iname)(S)
         if name == 'proximal_translation':
             fac = PO.proximal_translation(inner, SP.rand_elem(S, data(cfg, 'y')))
         elif name == 'proximal_arg_scaling':
